@@ -287,8 +287,9 @@ class Run(object):
             'wall_s': round(wall, 2),
             'violations': int(n_unknown),
         }
-        os.makedirs(os.path.join(VERIF, 'evidence'), exist_ok=True)
-        p = os.path.join(VERIF, 'evidence', self.prop + '.json')
+        evdir = os.environ.get('VERIF_EVIDENCE_DIR') or os.path.join(VERIF, 'evidence')
+        os.makedirs(evdir, exist_ok=True)
+        p = os.path.join(evdir, self.prop + '.json')
         with open(p + '.tmp', 'w') as f:
             json.dump(ev, f, indent=1, sort_keys=True)
         os.replace(p + '.tmp', p)
@@ -370,7 +371,7 @@ def match_known(known, v):
 
 
 def write_replay(prop, tier, v):
-    d = os.path.join(VERIF, 'replay', prop)
+    d = os.path.join(os.environ.get('VERIF_REPLAY_DIR') or os.path.join(VERIF, 'replay'), prop)
     os.makedirs(d, exist_ok=True)
     body = {'property': prop, 'tier': tier, 'part': v.get('part'),
             'kind': v['kind'], 'site': v.get('site'),
